@@ -20,7 +20,7 @@ OPS = ("rfft", "ifft", "parseval", "fftconvolve", "correlate", "mspec")
 
 
 def REQUIRED(tier):
-    return [f"op:{o}" for o in OPS] + ["len:odd_good_size", "len:prime", "len:power_of_two", "direct_dft_checks", "op:rfft_after_longer", "class:max_zero", "input_unchanged_checks", "regime:second_operand_longer", "mspec:after_interpolated_request", "correlate:operands_share_a_buffer", "rfft:after_in_place_edits"]
+    return [f"op:{o}" for o in OPS] + ["len:odd_good_size", "len:prime", "len:power_of_two", "direct_dft_checks", "op:rfft_after_longer", "class:max_zero", "input_unchanged_checks", "regime:second_operand_longer", "mspec:after_interpolated_request", "correlate:operands_share_a_buffer", "rfft:after_in_place_edits", "kernel:zeros_at_both_ends"]
 
 
 def EXHAUSTIVE(tier):
@@ -170,7 +170,12 @@ def run_case(case, ctx):
             # kernel lengths from 1 up to and beyond the data length (the second operand may be the longer one)
             ms_ = sorted({1, 2, 3, max(1, n // 2), n, n + 1, 2 * n + 3}) if not case.get("big") else [int(rng.integers(1, 200))]
             for m in ms_:
-                k = rng.normal(size=m).astype(np.float32) if cls != "impulse" else np.eye(1, m, m - 1, dtype=np.float32).ravel()
+                k = rng.normal(size=m).astype(np.float32) if cls != "impulse" else np.eye(1, m, m - 1 if m % 2 else m // 3, dtype=np.float32).ravel()
+                if cls == "normal" and m >= 5 and m % 3 == 0:   # a template sitting in a zero window: exact zeros at both ends
+                    k[: 1 + m // 5] = 0
+                    k[-1] = 0
+                if m >= 3 and k[0] == 0 and k[-1] == 0 and np.any(k):
+                    ctx.count("kernel:zeros_at_both_ends")
                 if cls == "max_zero" and m % 2:
                     k = (k - k.max()).astype(np.float32) if m > 1 else np.array([-1.5], dtype=np.float32)
                 k64 = k.astype(np.float64)
